@@ -33,6 +33,7 @@ def run(tier, seed):
     plan = [(4, 3, 300), (3, 2, 300), (6, 4, 400)]
     nseeds = 3 if tier == "quick" else 20
     traces, events, samples, viol = 0, 0, [], 0
+    gf_cov = {}
     try:
         for (nb, np_, steps) in plan:
             for k in range(nseeds):
@@ -54,12 +55,18 @@ def run(tier, seed):
                     path = common.write_replay(PROP, "trace_violation", {"property": PROP, "seed": s, "steps": steps, "nblocks": nb, "npeers": np_,
                                                                          "what": what, "trace": trace})
                     raise common.Violation(PROP, what, path)
+        # ---- end to end on a real node: scripted peers that misbehave or leave, then an honest peer
+        import gossipfetch
+        gf_cov, gf_fails = gossipfetch.run(PROP, tier, seed, {"fetch_not_announced", "fetch_request_lost"})
+        if gf_fails:
+            viol = 1
+            common.handle_failures(PROP, gf_fails, "gossip_fetch_failure")
     finally:
         cov = {"states": m.distinct, "transitions": m.generated, "traces_validated_against_impl": traces, "samples": samples or [{}],
                "evaluations": events, "distinct_nontrivial": traces,
                "rule": "model: BFS of FetchQueue.tla (3 blocks, 2 peers) incl. liveness NoLostWakeup; code: one trace per (blocks, peers, seed), every event "
                        "an enabled spec action, `quiet` events compare the real queue content with the spec and check quiescence",
-               "exhaustive": True}
+               "exhaustive": True, "node_level": gf_cov}
         common.write_evidence(PROP, tier, seed, "model_checking", cov,
                               ["single-threaded runtime with quiescence between commands (interleavings of the real multi-threaded runtime are not controlled)",
                                "one live requester per block number, as run_block_fetcher issues them"], time.time() - t0, viol)
@@ -71,6 +78,9 @@ def replay(path, seed):
     import json
     c = json.load(open(path))
     common.cargo_build()
+    if isinstance(c.get("case"), dict) and c["case"].get("mode") == "gossip_fetch":
+        import gossipfetch
+        return gossipfetch.replay(PROP, c["case"], seed, {"fetch_not_announced", "fetch_request_lost"})
     d = common.outdir(PROP)
     trace = os.path.join(d, "replay.ndjson")
     rep = os.path.join(d, "replay.json")
